@@ -39,7 +39,7 @@ def replay_rt(data):
     bad = []
     if not np.array_equal(R2, R):
         bad.append("rotation changed by encode/decode")
-    if not np.allclose(t2, t, atol=1e-15):
+    if not np.allclose(t2, t, rtol=0, atol=1e-15):
         bad.append("translation changed by encode/decode")
     if not (0 <= int(c) < NCODES):
         bad.append("code %d outside [0, 3^9*12^3)" % c)
@@ -69,18 +69,27 @@ def replay_fp(data):
 def replay_apply(data):
     from chmpy.crystal.symmetry_operation import SymmetryOperation
     R, t, x = np.array(data["R"], float), np.array(data["t"], float), np.array(data["x"], float).reshape(1, 3)
-    op = SymmetryOperation(R, t)
-    a = op.apply(x)
-    b = op.apply(np.hstack([x, [[1.0]]]))[:, :3]
-    want = x @ R.T + (t % 1)
     bad = []
-    if not np.allclose(a, want, atol=1e-9):
-        bad.append("apply(N,3) != R x + t")
-    if not np.allclose(b, want, atol=1e-9):
-        bad.append("apply(N,4) != R x + t")
-    if not np.allclose(op(x), a):
-        bad.append("__call__ != apply")
-    return bool(bad), bad
+    # the same operation given with its rotation part as a float64 array and (when integral, as the tabulated rotations are)
+    # as an integer array
+    variants = [("float64 array", R)]
+    if np.allclose(R, np.round(R)):
+        variants += [("integer array", np.round(R).astype(int)), ("int8 array", np.round(R).astype(np.int8))]
+    for tag, Rv in variants:
+        op = SymmetryOperation(Rv, t)
+        a = op.apply(x)
+        b = op.apply(np.hstack([x, [[1.0]]]))[:, :3]
+        want = x @ R.T + (t % 1)
+        if not np.allclose(a, want, rtol=0, atol=1e-9):
+            bad.append("rotation as %s: apply(N,3) != R x + t" % tag)
+        if not np.allclose(b, want, rtol=0, atol=1e-9):
+            bad.append("rotation as %s: apply(N,4) != R x + t" % tag)
+        if not np.allclose(op(x), a):
+            bad.append("rotation as %s: __call__ != apply" % tag)
+        S = np.asarray(op.seitz_matrix, float)
+        if S.shape != (4, 4) or not np.allclose(S[:3, :3], R) or not np.allclose(S[:3, 3], t % 1) or not np.allclose(S[3], [0, 0, 0, 1]):
+            bad.append("rotation as %s: seitz_matrix is not [[R, t], [0, 1]]" % tag)
+    return bool(bad), bad[:3]
 
 
 def replay_cart(data):
@@ -94,7 +103,7 @@ def replay_cart(data):
     for op, (Rc, tc) in zip(c.symmetry_operations, c.cartesian_symmetry_operations()):
         want = uc.to_cartesian(op.apply(f))
         got = np.dot(uc.to_cartesian(f), Rc) + tc
-        if not np.allclose(want, got, atol=1e-8):
+        if not np.allclose(want, got, rtol=0, atol=1e-8):
             bad.append("cartesian form of %s moves the point elsewhere" % op)
             break
     return bool(bad), bad
@@ -271,6 +280,14 @@ def part_c(ctx, m):
                     ctx.violation("apply:forms", nm, ext(r.model), replay_apply)
         if a4.shape[1] == 4:
             r = ctx.query("apply (N,4): homogeneous coordinate stays 1", p.pc, (a4[0, 3] == 1).t, ex=ex)
+    # the symbolic arrays above carry no machine type: the same identities on the real class for the array types callers use
+    okt = True
+    for Rg, tg in (([[0, -1, 0], [1, -1, 0], [0, 0, 1]], [1 / 3, 2 / 3, 0.5]), ([[-1, 0, 0], [0, -1, 0], [0, 0, -1]], [0.25, 0.75, 1 / 12])):
+        rbad, det = replay_apply({"R": Rg, "t": tg, "x": [0.1, 0.27, -0.4]})
+        if rbad and okt:
+            okt = False
+            ctx.violation("apply:forms", "apply / seitz_matrix depend on the array type of the rotation part: %s" % det[0], {"R": Rg, "t": tg, "x": [0.1, 0.27, -0.4]}, replay_apply)
+    ctx.record("apply / seitz_matrix for rotation parts given as float and integer arrays (ground instances)", "holds" if okt else "counterexample", nontrivial=True, method="ground instances")
     # Cartesian form via Crystal.cartesian_symmetry_operations on a symbolic cell (direct D, inverse I with D.I = I)
     cm = load_shimmed("chmpy.crystal.crystal")
     D = np.array([[Sym(z3.Real("d%d%d" % (i, j))) for j in range(3)] for i in range(3)], dtype=object)
